@@ -290,6 +290,8 @@ class Env:
         self.se = se
         self.comp_template = ObjectUpdateCompressedDataSerializer.TEMPLATE
         self.comp_base = se.BufferReader("<", _COMPRESSED).read(self.comp_template)
+        self._comp_bytes = {}
+        self.full_vars = None
         self.catcher = _LogCatcher()
         logging.getLogger().addHandler(self.catcher)
 
@@ -391,39 +393,76 @@ class World:
         return self.env.de.deserialize(self.env.ser.serialize(msg))
 
     def _compressed(self, local, fi, parent, crc, z):
+        """ObjectUpdateCompressed payload: written once per (pcode, has parent) by the real template serializer, then the
+        identity fields are patched at their wire offsets (header "<16sIBBIBB3f3f3fI16s", optional 3f angular velocity, then the
+        optional parent id) - and read back with the real template when a variant is first made."""
+        import struct
         from hippolyzer.lib.base.datatypes import Vector3
         from hippolyzer.lib.base.templates import CompressedFlags
-        d = dict(self.env.comp_base)
-        d["FullID"], d["ID"], d["PCode"], d["CRC"], d["State"] = full_uuid(fi), local, self._pcode(fi), crc, 0
-        d["Position"] = Vector3(1.0, 2.0, z)
-        flags = d["Flags"] & ~CompressedFlags.PARENT_ID
+        env = self.env
+        variant = (is_avatar(fi), bool(parent))
+        base = env._comp_bytes.get(variant)
+        first = base is None
+        if first:
+            d = dict(env.comp_base)
+            d["PCode"], d["State"] = self._pcode(fi), 0
+            flags = d["Flags"] & ~CompressedFlags.PARENT_ID
+            if parent:
+                flags |= CompressedFlags.PARENT_ID
+            d["ParentID"] = parent or None
+            d["Flags"] = flags
+            w = env.se.BufferWriter("<")
+            w.write(env.comp_template, d)
+            base = env._comp_bytes[variant] = bytes(w.copy_buffer())
+        buf = bytearray(base)
+        buf[0:16] = full_uuid(fi).bytes
+        struct.pack_into("<I", buf, 16, local)
+        struct.pack_into("<I", buf, 22, crc)
+        struct.pack_into("<3f", buf, 40, 1.0, 2.0, z)
         if parent:
-            flags |= CompressedFlags.PARENT_ID
-        d["ParentID"] = parent or None
-        d["Flags"] = flags
-        w = self.env.se.BufferWriter("<")
-        w.write(self.env.comp_template, d)
-        return w.copy_buffer()
+            flags = struct.unpack_from("<I", buf, 64)[0]
+            struct.pack_into("<I", buf, 84 + (12 if flags & int(CompressedFlags.ANGULAR_VELOCITY) else 0), parent)
+        out = bytes(buf)
+        if first:
+            back = env.se.BufferReader("<", out).read(env.comp_template)
+            assert (back["FullID"], back["ID"], back["CRC"], back["ParentID"] or 0, back["PCode"]) == \
+                (full_uuid(fi), local, crc, parent, self._pcode(fi)) and back["Position"] == Vector3(1.0, 2.0, z), back
+        return out
 
     def _msg_update(self, kind, r, blocks, crc):
+        """ObjectUpdate / ObjectUpdateCompressed as the real deserializer hands them to the handlers: one message of each kind is
+        passed through the real serializer + deserializer, its ObjectData variables are the template for all later blocks"""
+        import struct
         from hippolyzer.lib.base.datatypes import Vector3
         from hippolyzer.lib.base.message.message import Block, Message
+        env = self.env
         handle = self._handle_of(r)
         z = float(self.n % 4000) / 8.0
         if kind == "comp":
-            msg = Message("ObjectUpdateCompressed", Block("RegionData", RegionHandle=handle, TimeDilation=65535),
-                          *[Block("ObjectData", UpdateFlags=0, Data=self._compressed(local, fi, parent, crc, z))
-                            for (local, fi, parent) in blocks])
-            return self._wire(msg)
+            return Message("ObjectUpdateCompressed", Block("RegionData", RegionHandle=handle, TimeDilation=65535),
+                           *[Block("ObjectData", UpdateFlags=0, Data=self._compressed(local, fi, parent, crc, z))
+                             for (local, fi, parent) in blocks])
+        if env.full_vars is None:
+            b = Block("ObjectData", ID=1, FullID=full_uuid(0), PCode=self._pcode(0), CRC=1, Scale=Vector3(0.5, 0.5, 0.5),
+                      UpdateFlags=268568894, PathCurve=16, ParentID=0, ProfileCurve=1, PathScaleX=100, PathScaleY=100,
+                      NameValue=None, TextureEntry=_TE, TextColor=b'\x00\x00\x00\x00', ExtraParams=b'\x00', fill_missing=True)
+            msg = Message("ObjectUpdate", Block("RegionData", RegionHandle=handle, TimeDilation=123), b)
+            msg["ObjectData"][0].serialize_var("ObjectData", (60, {
+                'Position': (1.0, 2.0, 3.0), 'Velocity': (0.0, 0.0, 0.0), 'Acceleration': (0.0, 0.0, 0.0),
+                'Rotation': (0.0, 0.0, 0.0, 1.0), 'AngularVelocity': (0.0, 0.0, 0.0)}))
+            back = self._wire(msg)
+            env.full_vars = dict(back["ObjectData"][0].items())
+            env.region_vars = dict(back["RegionData"][0].items())
+            assert len(env.full_vars["ObjectData"]) == 60 and struct.unpack_from("<3f", env.full_vars["ObjectData"], 0) == (1.0, 2.0, 3.0)
         out = []
         for (local, fi, parent) in blocks:
-            b = Block("ObjectData", ID=local, FullID=full_uuid(fi), PCode=self._pcode(fi), CRC=crc, Scale=Vector3(0.5, 0.5, 0.5),
-                      UpdateFlags=268568894, PathCurve=16, ParentID=parent, ProfileCurve=1, PathScaleX=100, PathScaleY=100,
-                      NameValue=None, TextureEntry=_TE, TextColor=b'\x00\x00\x00\x00', ExtraParams=b'\x00', fill_missing=True)
-            b.serialize_var("ObjectData", (60, {'Position': (1.0, 2.0, z), 'Velocity': (0.0, 0.0, 0.0), 'Acceleration': (0.0, 0.0, 0.0),
-                                                 'Rotation': (0.0, 0.0, 0.0, 1.0), 'AngularVelocity': (0.0, 0.0, 0.0)}))
-            out.append(b)
-        return self._wire(Message("ObjectUpdate", Block("RegionData", RegionHandle=handle, TimeDilation=123), *out))
+            v = dict(env.full_vars)
+            v["ID"], v["FullID"], v["PCode"], v["CRC"], v["ParentID"] = local, full_uuid(fi), int(self._pcode(fi)), crc, parent
+            v["ObjectData"] = struct.pack("<3f", 1.0, 2.0, z) + env.full_vars["ObjectData"][12:]
+            out.append(Block("ObjectData", **v))
+        rv = dict(env.region_vars)
+        rv["RegionHandle"] = handle
+        return Message("ObjectUpdate", Block("RegionData", **rv), *out)
 
     def _msg_terse(self, r, local):
         from hippolyzer.lib.base.datatypes import Vector3, Quaternion
